@@ -653,12 +653,48 @@ def describe(c):
 def run_impl(c):
     return run_script_impl(c['script'])
 def model_req(c, ir):
-    return model_request(c['script'], ir)
+    """the decompile request for the model, followed by the spec-tie requests (tie/spec_tie.py) of the handlers that
+    lie inside the fragment of the theorems"""
+    r = model_request(c['script'], ir)
+    if r is None:
+        return None
+    reqs = [r]
+    if ir[0] == 'ok':
+        reqs += [x[3] for x in spec_requests(c['script'], ir)]
+    return reqs if len(reqs) > 1 else r
+
+def spec_requests(script, ir):
+    import spec_tie as ST
+    try:
+        codec = {bytes(k): bytes(v) for k, v in T.oracles(ir[-1])[0]}
+        return ST.requests(script, codec)
+    except Exception:
+        return []
+
+def split_ms(ms):
+    """-> (result of the decompile request, results of the spec-tie requests)"""
+    if ms is None:
+        return None, []
+    if ms and isinstance(ms[0], (list, tuple)):
+        return ms[0], list(ms[1:])
+    return ms, []
+
+def spec_verdicts(c, ir, ms):
+    """spec tie: [(what, kind, None)]"""
+    import spec_tie as ST
+    _, sres = split_ms(ms)
+    if not sres or ir[0] != 'ok':
+        return []
+    reqs = spec_requests(c['script'], ir)
+    if len(reqs) != len(sres):
+        return [('spec tie: %d requests but %d results' % (len(reqs), len(sres)), 'correspondence', None)]
+    return [(w, 'correspondence', None) for w in ST.judge(c['script'], reqs, sres, ir[1][0], ir[1][1])]
 def shrink_candidates(c):
     for s in shrink_script(c['script']):
         yield {'tag': c['tag'] + ':shrunk', 'script': s}
 
 def text_pair(ms):
+    ms, _ = split_ms(ms)
     if ms is None or ms[0] != b'ok':
         return None
     return ms[1][0].decode('utf-8', 'replace'), ms[1][1].decode('utf-8', 'replace')
